@@ -110,6 +110,17 @@ MeasuresConsistent ==
      LET m == Measure(Tpls(prog), "main", d, c) IN
      (prog # <<>> /\ m.err = "") => (m.outbytes <= m.peak /\ m.iters <= m.prod)
 
+\* C04 on the reference: with auto-escape on, no HTML-significant character reaches the
+\* output except inside the entities the engine writes and the markup it produces itself
+RECURSIVE DropAll(_, _)
+DropAll(s, pats) == IF pats = <<>> THEN s ELSE DropAll(ReplaceAll(s, pats[1], ""), Tail(pats))
+\* (upcase of an escaped text: HTML knows &LT; &GT; &AMP; too)
+EngineMarkup == <<"&amp;", "&lt;", "&gt;", "&#39;", "&#34;", "&AMP;", "&LT;", "&GT;", "<br />", "<BR />">>
+Clean(s) == LET r == DropAll(s, EngineMarkup) IN \A i \in 1..Len(r) : Ch(r, i) \notin HtmlSig
+NoRawUnsafe ==
+  \A d \in DataSets, c \in Cfgs :
+     c.autoescape => LET r == Expect(d, c) IN (prog # <<>> /\ r.ok) => Clean(r.out)
+
 \* inputs only (no expectation is computed)
 ExportInputs ==
   prog # <<>> =>
